@@ -123,6 +123,16 @@ def sameDtg (ss : List (Summary α)) : Bool :=
 /-- recommended window: latest start, earliest end, smallest mean step. -/
 def recommended (e : Extrema α) : Option (α × α × α) := if e.smax < e.emin then some (e.smax, e.emin, e.dmin) else none
 
+/-- Deviations before the keyword arguments are looked at: a `dtg_ref` conflict replaces all others. -/
+def devs1 (ss : List (Summary α)) (e : Extrema α) : List Dev :=
+  if dtgDefined ss && !sameDtg ss then [.dtgRef] else rawDeviations e
+
+/-- Last step of `_check_time_arrays`: the message formatting (TypeError when `common` is `None` and an action that
+quotes it is recommended), then the result. -/
+def finishCheck (ss : List (Summary α)) (e : Extrema α) (devs : List Dev) : Except Err (TimeCheck α) :=
+  if (recommended e).isNone && (devs.contains .dt || devs.contains .start || devs.contains .stop) then .error .type
+  else .ok ⟨devs.isEmpty, dtgDefined ss, if dtgDefined ss && sameDtg ss then (ss.head?.bind (·.dtg)) else none, recommended e, devs⟩
+
 /-- `TsDB._check_time_arrays(container, twin=…, resample=…)`. Errors: ValueError (empty container, degenerate `resample`
 array); TypeError when the answer is negative for a step/start/end deviation and the series do not overlap (the recommended
 actions are formatted from `common`, which is `None` then). -/
@@ -132,11 +142,7 @@ def checkTimeArrays (ss : List (Summary α)) (twin : Option (α × α)) (res : O
   | some e =>
     match handled e.smax e.emin twin res with
     | none => .error .value
-    | some h =>
-      let devs1 : List Dev := if dtgDefined ss && !sameDtg ss then [.dtgRef] else rawDeviations e
-      let devs := devs1.filter fun d => !h.contains d
-      if (recommended e).isNone && (devs.contains .dt || devs.contains .start || devs.contains .stop) then .error .type
-      else .ok ⟨devs.isEmpty, dtgDefined ss, if dtgDefined ss && sameDtg ss then (ss.head?.bind (·.dtg)) else none, recommended e, devs⟩
+    | some h => finishCheck ss e ((devs1 ss e).filter fun d => !h.contains d)
 
 /-- The time array a window leaves (`t[(t >= a) & (t <= b)]`); equals the first component of `Pipeline.window`. -/
 def windowT (a b : α) (t : List α) : List α := t.filter fun v => decide (a ≤ v ∧ v ≤ b)
